@@ -660,6 +660,7 @@ func runCase(c *mon.Ctx, e *entry, m reflect.Method, key string, alias, part, va
 	for _, v := range vals {
 		variant += v
 	}
+	plainRecv := false // reference run with the receiver holding the same value as in the aliased run
 	build := func(aliased bool) (recv reflect.Value, args []reflect.Value, objs []reflect.Value) {
 		objs = make([]reflect.Value, len(part)) // pointer per position
 		if aliased {
@@ -674,7 +675,7 @@ func runCase(c *mon.Ctx, e *entry, m reflect.Method, key string, alias, part, va
 			for pos, b := range part {
 				objs[pos] = reflect.ValueOf(e.Sample(vals[b], shape))
 			}
-			if !recvIsInput {
+			if !recvIsInput && !plainRecv {
 				// the receiver is a pure destination for this method (probed in runEntry): in the reference run it starts
 				// with unrelated content, so a method that leaves it untouched in some branch cannot pass by accident
 				objs[0] = reflect.ValueOf(e.Sample(17+variant%3, shape))
@@ -729,6 +730,13 @@ func runCase(c *mon.Ctx, e *entry, m reflect.Method, key string, alias, part, va
 		return // the call on distinct objects panics: outside the contract for these values (e.g. length mismatch)
 	}
 	if apan != nil {
+		// a method may refuse some receiver contents whatever the operands are (Polynomial.Add indexes an empty
+		// receiver): the panic is only due to aliasing if distinct objects holding the same values do not panic
+		plainRecv = true
+		pr, pa, _ := build(false)
+		if _, ppan := call(pr, pa); ppan != nil {
+			return
+		}
 		c.Fail(key+"/panic-when-aliased/"+fmt.Sprint(part), "%s: panics only when aliased: %v", desc(), apan)
 		return
 	}
